@@ -35,7 +35,12 @@ SPEC = {
             "implementation's logged random draws (each draw's distribution parameter compared to 1e-9) and must reproduce the post "
             "state/ranges/register to 1e-9; (B) sampled shots are replayed with forced outcomes by the reference semantics and the "
             "implementation's per-shot state must equal the exact conditional state up to a global phase, be normalised, and the recorded "
-            "outcomes must have non-zero probability. Non-trivial = a step with a measurement/peek/reset/conditional, or a shot replay; "
+            "outcomes must have non-zero probability. EXECUTED AGAIN ON THE SAME OBJECT (lines tagged `again `): feedback circuits (conditional gates "
+            "that read classical bits BEFORE the measurement that writes them in this run, then H/X and measurements into those bits) and circuits of "
+            "the random streams are executed once (other seed, now and then the other representation, same shot count), then again on the same Circuit "
+            "object; steps and shot replays are those of the SECOND run with pre-state = fresh state and ZERO register, so a register that is not "
+            "cleared is an (A) mismatch at the first operation and recorded words of probability zero in (B). "
+            "Non-trivial = a step with a measurement/peek/reset/conditional, or a shot replay; "
             "distinct = distinct request line.",
 }
 
